@@ -268,7 +268,11 @@ class Impl:
             return dt.timedelta(microseconds=e[1])
         if e[0] == "T":
             return mk_time(e[1])
-        return self.m["trigger"].weekday(e[1], mk_time(e[2]))
+        t = mk_time(e[2])
+        if (e[2][2] + e[2][3]) % 2:
+            # half of the triggers are built with the day class itself, the others through the weekday() factory
+            return getattr(self.m["trigger"], ["Monday", "Tuesday", "Wednesday", "Thursday", "Friday", "Saturday", "Sunday"][e[1]])(t)
+        return self.m["trigger"].weekday(e[1], t)
 
     def weight(self, c):
         if c["wden"] == 1:
